@@ -130,6 +130,22 @@ Definition section_id (section_name : text) : text :=
 End C12MerchantId.
 '''
     # ---- data script --------------------------------------------------------------------
+    # data_json = json.dumps(<name>)[.replace(c, c)]*        (json.dumps with default settings)
+    # data_script = f"<prefix>{data_json}<suffix>"            (or the json.dumps(...) chain inline)
+    def dumps_chain(e):
+        steps = []
+        while isinstance(e, ast.Call) and isinstance(e.func, ast.Attribute) and e.func.attr == 'replace':
+            if not (len(e.args) == 2 and not e.keywords and all(isinstance(a, ast.Constant) and isinstance(a.value, str) for a in e.args)
+                    and e.args[0].value):
+                raise Untranslatable('report.py: data escape is not .replace(<const>, <const>)')
+            steps.append((e.args[0].value, e.args[1].value))
+            e = e.func.value
+        if not (isinstance(e, ast.Call) and isinstance(e.func, ast.Attribute) and e.func.attr == 'dumps'
+                and isinstance(e.func.value, ast.Name) and e.func.value.id == 'json'
+                and len(e.args) == 1 and isinstance(e.args[0], ast.Name) and not e.keywords):
+            raise Untranslatable('report.py: data is not json.dumps(<name>) with default settings (+ constant replaces)')
+        steps.reverse()
+        return steps
     ds = [n for n in walk_no_nested(w) if isinstance(n, ast.Assign) and len(n.targets) == 1 and
           isinstance(n.targets[0], ast.Name) and n.targets[0].id == 'data_script']
     if len(ds) != 1 or not isinstance(ds[0].value, ast.JoinedStr):
@@ -138,11 +154,14 @@ End C12MerchantId.
     if not (len(parts) == 3 and isinstance(parts[0], ast.Constant) and isinstance(parts[2], ast.Constant)
             and isinstance(parts[1], ast.FormattedValue) and parts[1].conversion == -1 and parts[1].format_spec is None):
         raise Untranslatable('report.py: data_script f-string shape changed')
-    call = parts[1].value
-    if not (isinstance(call, ast.Call) and isinstance(call.func, ast.Attribute) and call.func.attr == 'dumps'
-            and isinstance(call.func.value, ast.Name) and call.func.value.id == 'json'
-            and len(call.args) == 1 and isinstance(call.args[0], ast.Name) and not call.keywords):
-        raise Untranslatable('report.py: data is not json.dumps(<name>) with default settings')
+    inner = parts[1].value
+    if isinstance(inner, ast.Name):
+        dj = [n for n in walk_no_nested(w) if isinstance(n, ast.Assign) and len(n.targets) == 1 and
+              isinstance(n.targets[0], ast.Name) and n.targets[0].id == inner.id]
+        if len(dj) != 1 or dj[0].lineno > ds[0].lineno:
+            raise Untranslatable(f'report.py: expected one assignment to {inner.id} before data_script')
+        inner = dj[0].value
+    escape_steps = dumps_chain(inner)
     prefix, suffix = parts[0].value, parts[2].value
     # ---- embedded branch: html_template.replace(P1, a).replace(P2, b).replace(P3, c) -------
     ifs = [n for n in walk_no_nested(w) if isinstance(n, ast.If) and isinstance(n.test, ast.UnaryOp) and
@@ -188,7 +207,10 @@ Inductive slot := SCss | SData | SJs.
 (* final_html = html_template.replace(p1, c1).replace(p2, c2)…  in application order *)
 Definition embed_steps : list (text * slot) :=
   [{'; '.join(f'({lit(p)}, {s})' for p, s in steps)}].
-(* data_script = f"<prefix>{{json.dumps(spending_data)}}<suffix>"  (json.dumps default settings) *)
+(* data_script = f"<prefix>{{escaped json.dumps(spending_data)}}<suffix>"  (json.dumps default settings) *)
+(* replaces applied to the json.dumps output before it is framed, in application order *)
+Definition data_escape_steps : list (text * text) :=
+  [{'; '.join(f'({lit(a)}, {lit(b)})' for a, b in escape_steps)}].
 Definition data_prefix : text := {lit(prefix)}.
 Definition data_suffix : text := {lit(suffix)}.
 (* (local variable or output key, stats key it is read from) per output function *)
